@@ -239,7 +239,8 @@ Section Handlers.
       unfold run_handler. pose proof (ok_process_message e (session, 0%N) "" (parse_message ("QUIT :" ++ quitmsg)) sv (RCtx id [])) as H.
       destruct (process_message _ _ _ _ sv _) as [[[[] sv1] r1]|?|?]; try discriminate.
       intros [= _ <-]. apply Forall_rev. apply H. constructor.
-    - destruct (update_last_cmid _ _ _ _ sv) as [sv1|]; [|discriminate].
+    - destruct (is_retry _ _ sv); [intros [= _ <-]; constructor|].
+      destruct (update_last_cmid _ _ _ _ sv) as [sv1|]; [|discriminate].
       unfold run_handler. pose proof (ok_process_message e (session, 0%N) remoteAddr (parse_message data) sv1 (RCtx id [])) as H.
       destruct (process_message _ _ _ _ sv1 _) as [[[[] sv2] r2]|?|?]; try discriminate.
       intros [= _ <-]. apply Forall_rev. apply H. constructor.
@@ -299,7 +300,8 @@ Proof.
     unfold run_handler. pose proof (ok_process_message P PE e (session, 0%N) "" (parse_message ("QUIT :" ++ quitmsg)) sv (RCtx id [])) as H.
     destruct (process_message _ _ _ _ sv _) as [[[[] sv1] r1]|?|?]; cbn; try discriminate.
     intros [= <-]. right. left. rewrite maybe_delete_session_lp. reflexivity.
-  - destruct (update_last_cmid _ _ _ _ sv) as [sv1|] eqn:Hu; [|cbn; intros [= <-]; now left].
+  - destruct (is_retry _ _ sv); [cbn; intros [= <-]; now left|].
+    destruct (update_last_cmid _ _ _ _ sv) as [sv1|] eqn:Hu; [|cbn; intros [= <-]; now left].
     unfold run_handler. pose proof (ok_process_message P PE e (session, 0%N) remoteAddr (parse_message data) sv1 (RCtx id [])) as H.
     destruct (process_message _ _ _ _ sv1 _) as [[[[] sv2] r2]|?|?]; cbn; try discriminate.
     intros [= <-]. right. right. rewrite maybe_delete_session_lp. reflexivity.
